@@ -72,22 +72,23 @@ def level_touch_ensures(lookup):
 def weave_readonly(u, u4):
     from weave import Repl
     u.text('pub mod readonly {\n' + u4.MOD_HEAD + 'use crate::std::fs::File;\nuse crate::plain::Cache as PlainCache;\nuse crate::sharded::Cache as ShardedCache;\n'
-           'use crate::sharded::entry_in;\nuse crate::Key;\nuse crate::Arc;\nuse crate::cache_dir::CacheDir;\n')
+           'use crate::sharded::entry_in;\nuse crate::sharded::sharded_lookup;\nuse crate::Key;\nuse crate::Arc;\nuse crate::cache_dir::CacheDir;\n')
     u.text('''
 /// The copy a plain directory holds for `name`: the inode bound to child(base, name).
 pub open spec fn plain_lookup(links: Map<PathV, InodeId>, base: PathV, name: Seq<u8>) -> Option<InodeId> {
     if links.contains_key(child(base, name)) { Some(links[child(base, name)]) } else { None }
 }
 
-/// The copy a sharded directory returns: the primary candidate's, else the secondary's.
-pub open spec fn sharded_lookup(links: Map<PathV, InodeId>, root: PathV, n: usize, key: Key) -> Option<InodeId> {
-    let s = shard_ids_spec(key.hash, key.secondary_hash, n);
-    if links.contains_key(entry_in(root, s.0, str_bytes(key.name))) {
-        Some(links[entry_in(root, s.0, str_bytes(key.name))])
-    } else if links.contains_key(entry_in(root, s.1, str_bytes(key.name))) {
-        Some(links[entry_in(root, s.1, str_bytes(key.name))])
-    } else {
-        None
+/// Nothing directly inside `<base>/.kismet_temp` is ever what a plain lookup returns.
+pub proof fn lemma_plain_temp_blind(base: PathV, temp: PathV)
+    requires
+        temp == child(base, temp_name()),
+    ensures
+        forall|links: Map<PathV, InodeId>, n: Seq<u8>, i: InodeId, name: Seq<u8>| #[trigger] plain_lookup(links.insert(child(temp, n), i), base, name) == plain_lookup(links, base, name),
+{
+    assert forall|links: Map<PathV, InodeId>, n: Seq<u8>, i: InodeId, name: Seq<u8>| #[trigger] plain_lookup(links.insert(child(temp, n), i), base, name) == plain_lookup(links, base, name) by {
+        assert(child(temp, n).len() == base.len() + 2);
+        assert(child(base, name).len() == base.len() + 1);
     }
 }
 ''')
@@ -336,11 +337,18 @@ def weave_stack(u, u4):
          '&& (forall|d: PathV| #[trigger] old(w).dirs.contains(d) ==> final(w).dirs.contains(d)) '
          '&& (forall|p: PathV| old(w).files.contains_key(p) && !(#[trigger] final(w).files.contains_key(p)) ==> p.len() > 0 && parent(p).len() > 0 && base_name(parent(p)) == temp_name())'),
         ('C18:error-is-a-real-fault', 'r.is_err() ==> final(w).hard_faults > old(w).hard_faults'),
+        ('C02 C13:asking-for-a-temp-dir-changes-no-lookup', 'forall|k: Key| #[trigger] self.lookup(final(w).files, k) == self.lookup(old(w).files, k)'),
+        ('C02 C13 C01:files-inside-the-temp-dir-are-invisible-to-lookups',
+         'r.is_ok() ==> forall|links: Map<PathV, InodeId>, n: Seq<u8>, i: InodeId, k: Key| #[trigger] self.lookup(links.insert(child(cowv(r.unwrap()), n), i), k) == self.lookup(links, k)'),
+        ('C02 C16:the-temp-dir-is-a-kismet-temp-directory-outside-every-read-only-root',
+         'r.is_ok() ==> final(w).is_temp_dir(cowv(r.unwrap())) && !final(w).under_ro(cowv(r.unwrap())) && forall|n: Seq<u8>| !final(w).under_ro(#[trigger] child(cowv(r.unwrap()), n))'),
     ]
     td.contract(requires=[('', 'old(w).inv() && self.level_wf() && self.rw(old(w).cfg())')], ensures=TEMP_ENS)
 
-    def write_ens():
+    def write_ens(op='set'):
         return [
+            ('C13 C11:success-means-a-publication-happened' + ('' if op == 'set' else '-unless-the-key-was-already-bound'),
+             'r.is_ok() ==> final(w).published > old(w).published' + ('' if op == 'set' else ' || self.lookup(old(w).files, key).is_some()')),
             ('C02 C18:valid-on-every-exit', 'final(w).inv()'), ('', 'final(w).kept_nc(*old(w))'),
             ('C16:invalid-names-fail-with-invalid-input-and-modify-nothing',
              '%s ==> r.is_err() && err_kind(err_of(r)) == ErrorKind::InvalidInput && final(w).same_fs(*old(w)) && final(w).counter == old(w).counter && final(w).published == old(w).published' % BAD),
@@ -353,7 +361,7 @@ def weave_stack(u, u4):
         m.add_param(W)
         m.contract(requires=[('', 'old(w).inv() && self.level_wf() && self.rw(old(w).cfg())'),
                              ('C01 C03:publishing-needs-a-private-finished-flushed-file-supplied-for-this-key', 'valid_key(str_bytes(key.name)) ==> old(w).value_ok(pv(value), str_bytes(key.name), old(w).must_sync)')],
-                   ensures=write_ens())
+                   ensures=write_ens(op))
 
     RW_PLAIN = ('(self.spec_temp() == child(self.spec_base(), temp_name()) && cfg.0.contains(self.spec_base()) && !under_ro_of(cfg.1, self.spec_base()) '
                 '&& !under_ro_of(cfg.1, self.spec_temp()) && (forall|n: Seq<u8>| !under_ro_of(cfg.1, #[trigger] child(self.spec_base(), n))) '
@@ -399,6 +407,7 @@ def weave_stack(u, u4):
                 m.body_start(sp['ready_proof'])
             if name == 'temp_dir' and ty == 'PlainCache':
                 m.replace('_key : Key', 'key: Key', 'T12-unused-param-name')
+                m.body_start('proof { lemma_plain_temp_blind(self.spec_base(), self.spec_temp()); lemma_child(self.spec_base(), temp_name()); }')
     u.dropped.append('T12: the unused parameter `_key` of `impl FullCache for PlainCache::temp_dir` is spelled `key` (parameter names must match the trait contract)')
     # ---- struct Cache, get::doit, touch::doit ------------------------------------------------------
     st = u.item('src/stack.rs', ['struct Cache'])
@@ -597,8 +606,10 @@ pub open spec fn read_copies_accepted(rs: ReadOnlyCache, links: Map<PathV, Inode
     WS = 'self.writer().unwrap()'
     BADK = '(!first_byte_ok(str_bytes(key.name)) || str_bytes(key.name).contains(0x2fu8))'
 
-    def impl_ens(ws):
+    def impl_ens(ws, op='set'):
         return [
+            ('C13 C11:success-means-a-publication-happened' + ('' if op == 'set' else '-unless-the-key-was-already-bound'),
+             'r.is_ok() ==> final(w).published > old(w).published' + ('' if op == 'set' else ' || %s.lookup(old(w).files, key).is_some()' % ws)),
             INV, ('', 'final(w).kept_nc(*old(w))'),
             ('C13 C15:without-a-write-cache-writes-fail-as-unsupported-and-change-nothing',
              '%s.is_none() ==> r.is_err() && err_kind(err_of(r)) == ErrorKind::Unsupported && *final(w) == *old(w)' % ws.replace('.unwrap()', '')),
@@ -621,7 +632,7 @@ pub open spec fn read_copies_accepted(rs: ReadOnlyCache, links: Map<PathV, Inode
         m.add_param(W)
         m.replace('Error :: new', 'io_error_new', 'T2-rebind')
         m.thread(['write . ' + op])
-        m.contract(requires=IMPL_REQ, ensures=impl_ens(WS))
+        m.contract(requires=IMPL_REQ, ensures=impl_ens(WS, op))
 
     # set::doit / put::doit (path variants: flush first) and the temp-file variants (finalize first)
     TW_ = 'this.writer().unwrap()'
